@@ -211,7 +211,8 @@ Definition methods_of (disj : bool) : list (string * stmt) := if disj then disjo
 Definition ext_methods (disj : bool) : list (string * stmt) :=
   let c := if disj then CArg else CGlobal in
   let rm := SAct 0 (XRemove c) FNever in
-  [("remove_node"%string, rm);
+  [("new_importer"%string, SSkip);      (* a caller constructs a new importer / property-graph handle: no store event *)
+   ("remove_node"%string, rm);
    ("delete_node"%string,
     if disj then SSeq (SAcq 0) (SSeq (SRel 0) (SSeq (SAcq 0) (SSeq (SRel 0) rm))) else rm)].
 Definition methods_all (disj : bool) : list (string * stmt) := methods_of disj ++ ext_methods disj.
